@@ -12,6 +12,10 @@ static void n_desc(uint64_t idx, void *ctx, char *b, size_t n)
     const null_case_t *c = &NULL_CASES[idx / NCELL]; (void) ctx;
     snprintf(b, n, "%s(...) with parameter %d (%s) = NULL, others valid, runtime debug level %d%s; guard %s, stated failure value %s%s", c->func, c->pos + 1, c->param, LEVELS[idx % NCELL], SILENT[idx % NCELL] ? " with output silenced" : "", c->kind, *c->val ? c->val : "(none: void)", c->pinned ? "" : " [not in the pinned table]");
 }
+/* the fatal-error path may be entered again while the process is on its way out (an exit handler that uses the library): the second
+ * NULL call must end like the first, not carry on with the NULL object */
+static const null_case_t *g_again;
+static void again_at_exit(void) { res_t r; memset(&r, 0, sizeof r); if (g_again) { const null_case_t *c = g_again; g_again = NULL; c->fn(&r); } }
 static void n_case(uint64_t idx, void *ctx)
 {
     const null_case_t *c = &NULL_CASES[idx / NCELL]; int level = LEVELS[idx % NCELL], silent = SILENT[idx % NCELL]; (void) ctx;
@@ -25,6 +29,7 @@ static void n_case(uint64_t idx, void *ctx)
         close(rp[0]); close(ep[0]); dup2(ep[1], 2);
         mc_child_reset();
         libast_debug_level = (unsigned) level; libast_set_silent(silent ? TRUE : FALSE);
+        if (level >= 1) { g_again = c; mc_exit_hook = again_at_exit; }
         c->fn(&r);
         if (write(rp[1], &r, sizeof r) != sizeof r) _exit(9);
         _exit(0);
